@@ -35,6 +35,7 @@ def run(ctx, crate):
     rule_readd_noop(ctx, crate)
     rule_unlink_frees_slot(ctx, crate)
     rule_multi_draw_total(ctx, crate)
+    _shared_c02(ctx, crate)
     # "removing, clearing or dropping a bar makes its lines disappear": an empty frame still erases the old rows (no reposition-only path)
     D.rule_draw_order(ctx, crate)
     D.rule_render_unless_hidden(ctx, crate)
@@ -51,6 +52,12 @@ def run(ctx, crate):
     # "for every interleaving": the suspend window (clear, closure, redraw) is one critical section of the MultiState lock
     from .c03 import rule_suspend_protocol
     rule_suspend_protocol(ctx, crate)
+
+
+def _shared_c02(ctx, crate):
+    # "directly below everything printed so far", also bottom-aligned: the shift that keeps a shrinking region at the bottom is
+    # computed from the whole frame, printed text included (seed C02n: counted from the first bar line only, the text is erased next)
+    D.rule_shift_full_frame(ctx, crate)
 
 
 def rule_multi_exclusive(ctx, crate, rule="R-MULTI-EXCLUSIVE"):
